@@ -379,9 +379,16 @@ mod c35 {
 
     #[derive(Deserialize)]
     struct Scn {
+        /// "all" = resolve_host_all, "one4" / "one6" = resolve_host(prefer_ipv6 = false / true),
+        /// "join" = lookup_ipv4_ipv6
+        #[serde(default = "api_all")]
+        api: String,
         host: String,
         e4: Entry,
         e6: Entry,
+    }
+    fn api_all() -> String {
+        "all".into()
     }
     #[derive(Deserialize)]
     struct Case {
@@ -433,7 +440,45 @@ mod c35 {
         };
         let mut out = Vec::new();
         let mut sub_ms = false;
-        {
+        let classify = |ip: IpAddr, at: u64| -> Item {
+            if ip == IpAddr::V4(LIT4) {
+                item("ok", "lit4", 0, "-", "-", at)
+            } else if ip == IpAddr::V6(LIT6) {
+                item("ok", "lit6", 0, "-", "-", at)
+            } else {
+                let (k, j) = k_of(&ip);
+                let fam = match (k, ip.is_ipv4()) {
+                    (1, true) => "a",
+                    (1, false) => "aaaa",
+                    _ => "unknown",
+                };
+                item("ok", fam, j, "-", "-", at)
+            }
+        };
+        let classify_err = |e: &DnsError, at: u64| -> Item {
+            match e {
+                DnsError::ResolveBoth { ipv4, ipv6, .. } => item("both", "-", 0, dns_err_class(ipv4), dns_err_class(ipv6), at),
+                other => item(dns_err_class(other), "-", 0, "-", "-", at),
+            }
+        };
+        if c.scn.api != "all" {
+            // the join-based entry points: one call, one result
+            let timeout = Duration::from_millis(c.timeout);
+            let res: Result<Vec<IpAddr>, DnsError> = match c.scn.api.as_str() {
+                "one4" => resolver.resolve_host(&url, false, timeout).await.map(|ip| vec![ip]),
+                "one6" => resolver.resolve_host(&url, true, timeout).await.map(|ip| vec![ip]),
+                "join" => resolver.lookup_ipv4_ipv6("host.example.", timeout).await.map(|it| it.collect()),
+                other => panic!("unknown api {other}"),
+            };
+            let us = t0.elapsed().as_micros() as u64;
+            sub_ms |= us % 1000 != 0;
+            let at = us / 1000;
+            match res {
+                Ok(ips) => out.extend(ips.into_iter().map(|ip| classify(ip, at))),
+                Err(e) => out.push(classify_err(&e, at)),
+            }
+            out.push(item("end", "-", 0, "-", "-", at));
+        } else {
             let stream = resolver.resolve_host_all(&url, Duration::from_millis(c.timeout));
             tokio::pin!(stream);
             loop {
@@ -450,29 +495,8 @@ mod c35 {
                         out.push(item("end", "-", 0, "-", "-", at));
                         break;
                     }
-                    Ok(Some(Ok(ip))) => {
-                        let it = if ip == IpAddr::V4(LIT4) {
-                            item("ok", "lit4", 0, "-", "-", at)
-                        } else if ip == IpAddr::V6(LIT6) {
-                            item("ok", "lit6", 0, "-", "-", at)
-                        } else {
-                            let (k, j) = k_of(&ip);
-                            let fam = match (k, ip.is_ipv4()) {
-                                (1, true) => "a",
-                                (1, false) => "aaaa",
-                                _ => "unknown",
-                            };
-                            item("ok", fam, j, "-", "-", at)
-                        };
-                        out.push(it);
-                    }
-                    Ok(Some(Err(e))) => {
-                        let it = match &e {
-                            DnsError::ResolveBoth { ipv4, ipv6, .. } => item("both", "-", 0, dns_err_class(ipv4), dns_err_class(ipv6), at),
-                            other => item(dns_err_class(other), "-", 0, "-", "-", at),
-                        };
-                        out.push(it);
-                    }
+                    Ok(Some(Ok(ip))) => out.push(classify(ip, at)),
+                    Ok(Some(Err(e))) => out.push(classify_err(&e, at)),
                 }
                 if out.len() > 40 {
                     out.push(item("runaway", "-", 0, "-", "-", at));
@@ -1139,6 +1163,43 @@ mod c32 {
                                         }
                                         out.emit(&o);
                                     }
+                                }
+                            }
+                        }
+                    }
+                }
+                // more_recent_than on real packets for every ordered pair of (timestamp rank, payload rank)
+                "order" => {
+                    let n = c.count.max(2) as usize;
+                    // payloads built by the crate, ranked by their bytes; timestamps ranked by value
+                    let mut pls: Vec<Vec<u8>> = (0..n)
+                        .map(|i| {
+                            let v = format!("rank={}", i * 7 + 1);
+                            SignedPacket::from_txt_strings(&w.sk1, "_iroh", [v.as_str()], 30).expect("order payload").encoded_packet().to_vec()
+                        })
+                        .collect();
+                    pls.sort();
+                    pls.dedup();
+                    assert_eq!(pls.len(), n, "distinct payloads");
+                    let tss: Vec<u64> = (0..n as u64).map(|i| w.t[0] + i * i * 1000 + i).collect();
+                    let mk = |ts: usize, pl: usize| -> SignedPacket {
+                        let sig = w.sk1.sign(&signable(tss[ts], &pls[pl])).to_bytes();
+                        let mut b = Vec::new();
+                        b.extend_from_slice(&w.key("k1"));
+                        b.extend_from_slice(&sig);
+                        b.extend_from_slice(&tss[ts].to_be_bytes());
+                        b.extend_from_slice(&pls[pl]);
+                        SignedPacket::from_bytes(&b).expect("authentic packet")
+                    };
+                    for ta in 0..n {
+                        for pa in 0..n {
+                            for tb in 0..n {
+                                for pb in 0..n {
+                                    let (x, y) = (mk(ta, pa), mk(tb, pb));
+                                    let newer = vh::io::catch(|| x.more_recent_than(&y));
+                                    out.emit(&serde_json::json!({"case": c.id, "ctor": "order",
+                                        "a": {"ts": ta + 1, "pl": pa + 1}, "b": {"ts": tb + 1, "pl": pb + 1},
+                                        "newer": newer.clone().ok(), "panic": newer.err()}));
                                 }
                             }
                         }
